@@ -66,7 +66,10 @@ def strip_generics(s):
         elif depth == 0:
             out += c
         i += 1
-    return out.replace("::::", "::")
+    out = out.replace("::::", "::")
+    while out.endswith("::"):
+        out = out[:-2]
+    return out
 
 
 HEADER_RE = re.compile(r"^fn (.+?)\((.*)\) -> (.+?) \{$")
@@ -92,6 +95,8 @@ def parse_functions(text, src_root):
         f.ret = m.group(3)
         cur = None
         for ln in lines[1:]:
+            if ln == "}":
+                break          # end of this fn; promoted constants / allocs printed after it are not part of the body
             s = ln.strip()
             lm = re.match(r"^let (?:mut )?_(\d+): (.*);$", s)
             if lm:
@@ -142,7 +147,10 @@ def impl_type(src_root, file, line):
             txt += " " + lines[j]
             j += 1
         txt = strip_generics(txt)
-        m = re.match(r"\s*impl\s+(?:(\w+(?:::\w+)*)\s+for\s+)?(&?\w+(?:::\w+)*)", txt)
+        txt = re.sub(r"&\s*'\w+\s*", "&", txt)
+        if re.search(r"for\s+&?(mut )?\[u8\]", txt):
+            txt = re.sub(r"for\s+&?(mut )?\[u8\]", "for SliceU8", txt)
+        m = re.match(r"\s*impl\s+(?:(\w+(?:::\w+)*)\s+for\s+)?&?(\w+(?:::\w+)*)", txt)
         if m:
             trait = m.group(1).split("::")[-1] if m.group(1) else None
             res = (m.group(2).split("::")[-1], trait)
@@ -175,7 +183,9 @@ def callee_key(callee):
     if m:
         # <Type as Trait>::method
         ty = strip_generics(m.group(1)).strip()
-        ty = ty.lstrip("&").replace("mut ", "").strip()
+        ty = re.sub(r"&\s*('\w+\s*)?", "", ty).replace("mut ", "").strip()
+        if ty == "[u8]":
+            ty = "SliceU8"
         ty = ty.split("::")[-1]
         return (ty, m.group(3))
     p = strip_generics(c)
